@@ -93,6 +93,11 @@ func Fetch(
 			return err
 		}
 
+		// An empty file has no stream on the tape (it is archived without running the pipeline), so there is nothing to decrypt, decompress or verify
+		if hdr.Size == 0 {
+			return dstFile.Close()
+		}
+
 		// Don't decompress non-regular files
 		if !hdr.FileInfo().Mode().IsRegular() {
 			if _, err := io.Copy(dstFile, tr); err != nil {
